@@ -17,6 +17,18 @@ CHECKS = {
    text="Seeded search over simulated runs of the real writer (introducer, persister, merger, deletion policy, FileSystemDirectory/InMemoryDirectory, ice v1/v2) under a gate scheduler: a generated single-client history meets many physical segmentations, and after every window in which the root changed a fresh Reader is compared document by document (Count, match-all, lookup by _id, stored fields) with the abstract index. Sampling, not proof; the right level because the property quantifies over histories x schedules x configurations.",
    note="Trusted: the gate wrappers delegate faithfully; the abstract index (40 lines) is the specification; runs are sampled by seed.",
    technique="deterministic simulation: seeded gate scheduler over the real writer, abstract-index oracle after every window"),
+ "C04": dict(level="exploration", ref="3/C04",
+   text="Seeded search over simulated runs in which client actors hold several Readers of different ages open while batches, merges, persist swaps, unlinks and Close are scheduled between their reads; the first full read (count, match-all, stored fields, id lookup, sorted top-N over document values, aggregations, dictionary scan, phrase/boolean/conjunction/disjunction/range/prefix queries) is the baseline (checked against the abstract index at acquisition) and every later read must be identical; a fault of the process is reported as the violation. Sampling of schedules, not proof.",
+   note="Trusted: gate wrappers delegate; regions between gates are atomic w.r.t. other gated actors; reads cover the listed query kinds only.",
+   technique="deterministic simulation: held readers re-read across gated background steps, baseline-equality oracle"),
+ "C05": dict(level="exploration", ref="3/C05",
+   text="Seeded search over schedules of 2-8 client actors on 3-6 shared ids; the stale-obsoletes window is opened at the DocsMatchingTerms seam; each recorded history (Batch calls and Reader contents, stamped with scheduler windows) is decided by porcupine against the abstract index, and every monitor observation must be an atomic application of in-flight batches. Sampling of schedules; each history is decided exactly.",
+   note="Trusted: porcupine v1.3.0; window stamps over-approximate concurrency (never claim an order that did not hold); Unknown (timeout) verdicts are counted, not reported.",
+   technique="deterministic simulation + linearizability checking (porcupine) of recorded histories against the abstract index"),
+ "C06": dict(level="exploration", ref="3/C06",
+   text="Seeded search over merge-heavy simulated runs with the generator aiming deletes/updates (and delete-all) at segments that are between their Merge seam and their introduction; the monitor reader must equal the abstract index after every window and the on-disk index after quiescence and Close must equal it too. Sampling of schedules, not proof.",
+   note="Trusted: gate wrappers delegate; the Merge seam identifies the merging documents by reading their stored _id.",
+   technique="deterministic simulation: merge-phase gates with delete-into-merge bias, abstract-index oracle after every window"),
 }
 
 ENGINE = "bsim"
